@@ -28,13 +28,15 @@ def dim_alphabet(s, level):
     """level 2 = full, 1 = reduced (8), 0 = small (5)."""
     ints = [["i", 0], ["i", s - 1], ["i", -1], ["i", -s]]
     slices = [["s", None, None, None], ["s", 0, s, None], ["s", 1, None, None], ["s", None, -1, None],
-              ["s", -2, None, None], ["s", None, None, 2], ["s", 1, None, 2], ["s", 0, 100, None], ["s", s - 1, s, None]]
+              ["s", -2, None, None], ["s", None, None, 2], ["s", 1, None, 2], ["s", 0, 100, None], ["s", s - 1, s, None],
+              # interior slices: start not aligned to a block boundary while the length is (block-structured operators take shortcuts on aligned slices)
+              ["s", 1, s - 1, None], ["s", 2, s, None], ["s", 1, 3, None]]
     tens = [["z", min(1, s - 1)], ["t", [0]], ["t", [0, s - 1]], ["t", [s - 1, 0, 0]], ["l", [0, s - 1]]]
     if level == 2:
         al = ints + slices + tens
     elif level == 1:
         al = [["i", 0], ["i", -1], ["s", None, None, None], ["s", 1, None, None], ["s", None, -1, None], ["s", 0, s, None],
-              ["s", None, None, 2], ["t", [0, s - 1]], ["t", [s - 1, 0, 0]]]
+              ["s", None, None, 2], ["s", 1, s - 1, None], ["t", [0, s - 1]], ["t", [s - 1, 0, 0]]]
     else:
         al = [["i", -1], ["s", None, None, None], ["s", 1, None, None], ["s", 0, s, None], ["t", [s - 1, 0, 0]]]
     out = []
